@@ -79,6 +79,8 @@ long fk_fail_at;			/* 0 = never; k = fail the k-th */
 int fk_fail_persist;			/* fail every allocation from the k-th on */
 int fk_fail_hit;			/* set when an allocation was refused (cleared by the driver) */
 unsigned long fk_fail_total;		/* refusals so far */
+int fk_ctx = -1;			/* set by the driver: index of the top-level op running, -2 = event loop */
+int fk_fail_where = -1;			/* fk_ctx at the first refusal */
 
 static void fk_track(void * p, size_t n)
 {
@@ -101,6 +103,7 @@ static int fk_refuse(void)
 	fk_alloc_count++;
 	if (fk_fail_at > 0 && ((long)fk_alloc_count == fk_fail_at ||
 	    (fk_fail_persist && (long)fk_alloc_count > fk_fail_at))) {
+		if (fk_fail_total == 0) fk_fail_where = fk_ctx;
 		fk_fail_hit = 1; fk_fail_total++; errno = ENOMEM; return 1;
 	}
 	return 0;
